@@ -68,15 +68,19 @@ def cases(draw, tier):
             prog.append(g)
         elif k == 0:
             prog.append(draw(builder_instr()))
-        elif draw(st.integers(0, 7)) == 0:
-            prog.append({"op": "vcompress", "o": draw(st.integers(0, 9)), "a": draw(st.integers(0, 9)),
-                         "method": draw(st.sampled_from(["1site", "2site"])), "small_guess": draw(st.integers(0, 1))})
-        elif not has_qn and draw(st.integers(0, 3)) == 0:
+        elif not has_qn and draw(st.integers(0, 4)) == 0:
             if not any(i["op"] == "mpo" for i in prog):
                 prog.append(draw(chain.mpo_instr(spec)))
             prog.append({"op": "vcompress_sweeps", "o": draw(st.integers(0, 9)), "a": draw(st.integers(0, 9)),
                          "method": draw(st.sampled_from(["1site", "2site"])), "gm": draw(st.sampled_from([1, 1, 2])),
                          "rng": draw(st.integers(0, 10 ** 6))})
+        elif draw(st.integers(0, 7)) == 0:
+            prog.append({"op": "vcompress", "o": draw(st.integers(0, 9)), "a": draw(st.integers(0, 9)),
+                         "method": draw(st.sampled_from(["1site", "2site"])), "small_guess": draw(st.integers(0, 1)),
+                         "stale": draw(st.integers(0, 2)) == 0})
+        elif draw(st.integers(0, 11)) == 0:
+            prog.append({"op": "compress_scaled", "a": draw(st.integers(0, 9)), "on": draw(st.sampled_from(["S", "S", "M"])),
+                         "exp": draw(st.sampled_from([-10, -14, -6, 8])), "dir": draw(st.integers(0, 1))})
         else:
             prog.append(draw(chain.gauge_instr(draw(st.sampled_from(["S", "S", "S", "O", "M"])))))
     return {"model": spec, "prog": prog}
@@ -227,6 +231,13 @@ class Interp04(chain.Interp):
         # vguess_m: bond dimensions of the compressed copies from which the initial guess is built (default (5,5))
         x.compress_config = CompressConfig(CompressCriteria.fixed, max_bonddim=M, vmethod=ins["method"],
                                            vguess_m=(2, 2) if small_guess else (M, M))
+        if ins.get("stale") and not small_guess:
+            # the state carries a configuration whose per-bond limits were filled by an earlier small truncation (limit 2); the
+            # sweep schedule asks for 64 in every sweep with plain integers, which must win
+            sched = ([[M, 1.0], [M, 0.7], [M, 0.5], [M, 0.3], [M, 0.1]] if ins["method"] == "1site" else [[M, 0.5], [M, 0.3], [M, 0.1]]) + [[M, 0]] * 10
+            x.compress_config = CompressConfig(CompressCriteria.fixed, max_bonddim=2, vmethod=ins["method"], vprocedure=sched, vguess_m=(M, M))
+            x.compress_config.set_bonddim(self.n + 1)
+            self.r.classes.append("variational_compress.stale_per_bond_limits")
         before_a = chain.dense_of(x)
         before_o = chain.dense_of(mpo)
         np.random.seed(7)
@@ -273,6 +284,38 @@ class Interp04(chain.Interp):
         q = tuple(int(v) for v in (np.array(a.q) + np.array(o.q)))
         check_meta(self, chain.Reg(c, ref, q, "S"), "vcompress")
 
+
+    def i_compress_scaled(self, ins):
+        """canonicalisation and lossless compression of a tiny / huge multiple of a state: everything is relative to the object's
+        own scale (checked without any absolute slack)"""
+        regs = {"S": self.S, "M": self.M}[ins.get("on", "S")]
+        a = self.pick(regs, ins["a"])
+        if a is None or self.n < 2:
+            return
+        n0 = np.linalg.norm(a.model)
+        if not 1e-3 < n0 < 1e3:
+            return
+        fac = 10.0 ** ins["exp"]
+        ok, y = self.guard("compress_scaled.scale", a.obj.scale, fac)
+        if not ok:
+            return
+        bd0 = list(a.obj.bond_dims)
+
+        def f():
+            if ins["dir"]:
+                y.ensure_left_canonical()
+            else:
+                y.ensure_right_canonical()
+            y.compress(temp_m_trunc=chain.BIG)
+        ok, _ = self.guard("compress_scaled", f)
+        if not ok:
+            return
+        got = chain.dense_of(y) / fac
+        err = np.linalg.norm(got - a.model) / n0
+        self.r.classes.append(f"compress_scaled.1e{ins['exp']}")
+        self.r.resid("compress_scaled.rel_err", err, 1e-9)
+        self.r.check("compress_scaled.dense", err <= 1e-9,
+                     f"lossless compress of {fac:g} x state: relative change {err:.3e} (bond dims {bd0} -> {list(y.bond_dims)}) trace={self.trace[-6:]}")
 
     def i_vcompress_sweeps(self, ins):
         """convergence of the sweeps themselves: explicit low-bond random guess of the target sector, a long schedule without
